@@ -2251,8 +2251,8 @@ impl Gen {
         bits & 0x7fff_ffff
     }
 
-    /// a literal of any kind drawn from the whole value range (sign bit set in about one case of eight: negative
-    /// literals are a known defect class)
+    /// a literal of any kind drawn from the whole value range (sign bit set in about one case of eight: a negative
+    /// literal reads back as a unary minus — known finding; its grouping under postfix constructs is repaired, e7611e2)
     fn wide_literal(&mut self) -> SExp {
         let neg = self.rng.chance(1, 8);
         let int_mag = |g: &mut Gen, max_bits: u64| -> u64 {
@@ -2390,11 +2390,10 @@ impl Gen {
                 )
             }
             _ => {
-                // operators containing `<`, `>` or `,` inside template arguments are a known defect class (corpus)
+                // every operator: since e8e0be6 the shift operators and everything that binds less tightly (`<`, `>`, `,`,
+                // `?:` …) are printed in parentheses in an expression-or-type position
                 let e = self.expr(d.min(2), false);
-                let sh = e.show();
-                let risky = ["Less", "Greater", "Shift", "Sequence", "tern"].iter().any(|w| sh.contains(w));
-                SExp::list("E", vec![if risky { self.leaf() } else { e }])
+                SExp::list("E", vec![e])
             }
         }
     }
